@@ -2,13 +2,41 @@
 Glue for the generated cron-store timer functions (Gk/Gen/Cron.lean; cron/cron.go `resetTimer`, `stopTimer`,
 `StartTimer`, `StopTimer`, `NextScheduled`, `LastTimerUpdateError`). `GoCron` is the receiver: the two fields the
 translated code assigns (`isTimerStarted`, `clock`) and the rest of the model state `Gk.Cron` (entries, pending
-occurrences, counter), of which the translated code only asks `schedule.Len()` and `schedule.Peek()`.
-The other methods (`updateTask`, `EditTask`, `Pop`, `pushNext`, `Peek`, `Schedule`) stay hand-transcribed (Gk/Cron.lean).
+occurrences, counter), of which the translated code asks `schedule.Len()`, `schedule.Peek()`, `schedule.Pop()` and
+`pushNext` (Entry.Next, mutators, uuid, ToTask, heap push: hand-transcribed, `Cron.pushNext` below = the middle of
+`Cron.pop`, see `Tie.pop_eq`). `Peek` and `Pop` are TRANSLATED (emptiness test, pop, pushNext, resetTimer, in that order);
+`updateTask`, `EditTask`, `Schedule` stay hand-transcribed (Gk/Cron.lean).
 -/
 import Gk.Gen.Sortabletask
 import Gk.GenGlue
+import Gk.GenGlueMem
 import Gk.Cron
 namespace Gk
+
+namespace Cron
+/-- `c.schedule.Pop()`: the head leaves the heap -/
+def dropHead (c : Cron) (t : WTask) : Cron := { c with pending := c.pending.filter (fun w => w.rank != t.rank) }
+
+/-- `pushNext(t)` (cron/cron.go): the entry of the popped task computes its next occurrence, the popped task's mutators
+are applied, and the result is pushed with the next insertion order — the middle part of `Cron.pop`, verbatim. -/
+def pushNext (c : Cron) (t : WTask) : Cron :=
+  match (c.entries.find? (·.1 == t.key)).bind (fun kv => c.ent kv.2) with
+  | none => c
+  | some e =>
+    match e.param with
+    | none => { c with oracleExhausted := true }
+    | some p =>
+      let c := c.setEnt e.advance
+      match wrap c e p t.muts (c.counter + 1) with
+      | some w => { c with pending := c.pending ++ [w], counter := c.counter + 1 }
+      | none => c
+end Cron
+
+/-- `*wrappedTask` as the translated `Pop` uses it: `t.Task` (the embedded `*IndexedTask`'s task) and the rest -/
+structure GoWrapped where
+  Task : Gen.Def.Task := default
+  w : WTask := default
+  deriving Inhabited
 
 structure GoCron where
   isTimerStarted : Bool := false
@@ -23,10 +51,17 @@ def ofCron (c : Cron) : GoCron := { isTimerStarted := c.started, clock := c.cloc
 
 /-- `c.schedule.Len()` -/
 def schedLen (g : GoCron) : Int := g.rest.pending.length
-/-- `c.schedule.Peek()`: the minimum of the heap (only its task's scheduled time is read) -/
+/-- `c.schedule.Peek()`: the minimum of the heap -/
 def schedPeek (g : GoCron) : Gen.Sortabletask.IndexedTask :=
   match g.rest.head with
-  | some h => { Task := { (default : Gen.Def.Task) with ScheduledAt := h.task.scheduledAt }, Index := 0, InsertionOrder := h.rank }
+  | some h => { Task := toGenTask h.task, Index := 0, InsertionOrder := h.rank }
   | none => default
+/-- `c.schedule.Pop()` (only called on a non-empty heap) -/
+def schedPop (g : GoCron) : GoCron × GoWrapped :=
+  match g.rest.head with
+  | some h => ({ g with rest := g.rest.dropHead h }, { Task := toGenTask h.task, w := h })
+  | none => (g, default)
+/-- `c.pushNext(t)`; reads the store's clock (`c.clock.Now()` is the new task's creation time) -/
+def pushNext (g : GoCron) (t : GoWrapped) : GoCron := { g with rest := (g.toCron.pushNext t.w) }
 end GoCron
 end Gk
